@@ -18,9 +18,9 @@ DATAS = [{}, {'a': 1}, {'meta': {'id': 7, 'src': 'café ☃', 'n': None, 'l': [1
 KINDS = ['none', 'raw', 'jpg_undecoded', 'jpg_decoded', 'ro_cached_jpg']
 
 
-def mk_scenario(max_topics, kinds=KINDS, planted=None, datas=DATAS):
+def mk_scenario(max_topics, kinds=KINDS, planted=None, datas=DATAS, min_topics=0):
     def scenario(e):
-        nt = e.choice('ntopics', max_topics + 1)
+        nt = min_topics + (e.choice('ntopics', max_topics + 1 - min_topics) if max_topics > min_topics else 0)
         outs_jpg = [None, True, False][e.choice('outs_jpg', 3)]
         frames = {}; src = {}
         si = e.fresh_int('si', 0); sj = e.fresh_int('sj', 0)
@@ -130,11 +130,16 @@ def harnesses(tier):
     stubs = ['ndmodel (numpy/cv2 contract model, lossless jpg)', 'bytearray/memoryview of an array -> RawBlob of the logical content']
     assume = ['JPEG pixel tolerance and real strided memoryview copying are outside the solver claim (checked concretely in the self test)',
               'JSON int/str round trip of the envelope is trusted for symbolic sizes (done for real in the concrete replay)']
-    return [Harness('c09.codec_round_trip', mk_scenario(2 if q else 3), twin=mk_scenario(1, planted=True),
-                    bounds={'topics': '0-2' if q else '0-3', 'frame kinds': '5 (no image, raw, jpg undecoded, jpg decoded, read-only with cached jpg)', 'formats': 'GRAY/BGR/RGB',
+    hs = [Harness('c09.codec_round_trip', mk_scenario(2), twin=mk_scenario(1, planted=True),
+                    bounds={'topics': '0-2', 'frame kinds': '5 (no image, raw, jpg undecoded, jpg decoded, read-only with cached jpg)', 'formats': 'GRAY/BGR/RGB',
                             'height,width': 'symbolic in [1,4096]', 'writable': 'both', 'data': f'{len(DATAS)} concrete JSON samples', 'outs_jpg': 'None/True/False',
                             'pixel index': 'symbolic'},
                     functions=fn, stubs=stubs, assumptions=assume, budget_s=900)]
+    if not q:
+        hs.append(Harness('c09.codec_round_trip.3topics', mk_scenario(3, kinds=['none', 'raw', 'jpg_undecoded'], datas=DATAS[:2], min_topics=3),
+                          bounds={'topics': 3, 'frame kinds': 'no image, raw (both memory layouts), jpg undecoded', 'formats': 'GRAY/BGR/RGB', 'height,width': 'symbolic in [1,4096]', 'data': '2 samples',
+                                  'outs_jpg': 'None/True/False'}, functions=fn, stubs=stubs, assumptions=assume, budget_s=3000))
+    return hs
 
 
 EXPLANATION = ('bounded symbolic execution of the real MQ.frames2topicmsgs / MQ.topicmsgs2frames / Frame codec paths over the array model: image height and width are '
